@@ -7,6 +7,9 @@ fn main() {
     let mut r = match a.check.as_str() {
         "c01" => rt.block_on(osv::e2e::c01::run(&a)),
         "c02" => rt.block_on(osv::e2e::c02::run(&a)),
+        "c06" => rt.block_on(osv::e2e::c06::run(&a)),
+        "c10" => rt.block_on(osv::e2e::c10::run(&a)),
+        "c11" => rt.block_on(osv::e2e::c11::run(&a)),
         "c08" => rt.block_on(osv::e2e::c08::run(&a)),
         "c16" => rt.block_on(osv::e2e::c16::run(&a)),
         "c15" => rt.block_on(osv::e2e::c15::run(&a)),
